@@ -10,6 +10,8 @@ correspond:
                jsonschema + xsd generation vs Collide.verify on small generated meta-models seeded
                with near-collisions in every scope kind.
 oracle (independent of Lean):
+  methods (user snippets, never declared by a generator): two methods of a class that the target's method_name makes
+  equal must make verify_for_types report an error;
   run main.execute per target; when it returns 0, read the generated files (c21_decl) and report
   every name declared twice in one scope / fewer JSON definitions or properties than entities / fewer named XSD root
   children per tag than entities (a repeated definition that was silently merged or dropped shows only in the count).
@@ -473,6 +475,21 @@ def enumerated_mms() -> List[Dict[str, Any]]:
         mm([cls("something", ["x"])]),
         mm([cls("Something", ["type", "Type"])]),
         mm([cls("Something", ["a__b", "a_b"])]),
+        # (added with the repairs of C21-F1 … F37: variants that the coarse sigs of the former findings had masked)
+        mm(base, [], ["matches_x", "_matches_x"]),   # java / typescript: construct<Name> of a pattern verification
+        mm(base, [], ["matches_x", "MATCHES_x"]),    # golang: <name>Re of a pattern verification (private name)
+        mm([cls("Thing", ["_url", "URL"])]),         # java getters / typescript set<Prop>FromJsonable
+        mm([cls("Thing", ["url", "URL"])]),          # golang private struct fields
+        mm([cls("Color", ["x"]), cls("COLOR", ["y"])]),  # golang colorToMap
+        mm([cls("Stem", ["a__b"], abstract=True), cls("Something", ["a_b"], parent="Stem")]),  # inherited + own JSON / XML name
+        mm([enum("Thing1", ["Red"]), cls("Thing_1", ["x"], abstract=True), cls("Leaf", ["y"], parent="Thing_1")]),  # golang Thing1FromJsonable
+        mm([cls("ModelType", ["x"])]),
+        mm([enum("Model__type", ["A"]), cls("Something", ["x"])]),
+        mm([cls("Foo", ["x"]), cls("Model_type_foo", ["y"])]),  # golang: the global constant ModelTypeFoo vs the struct
+        # methods spread over a hierarchy (only the in-process verdict and the method oracle see them)
+        mm([cls("Stem", ["x"], ["do_it"], abstract=True), cls("Something", ["y"], ["do_It"], parent="Stem")]),
+        mm([cls("Ground", ["x"], ["do_URL"], abstract=True), cls("Stem", ["mid"], abstract=True, parent="Ground"), cls("Something", ["y"], ["do_Url"], parent="Stem")]),
+        mm([cls("Stem", ["x"], ["do_it"]), cls("Something", ["y"], ["other", "do__it"], parent="Stem")]),
     ]
     return out
 
@@ -717,8 +734,8 @@ def impl_verify_sdk(symbol_table: Any, target: str) -> str:
 
 
 SCHEMA_COLLISION_RE = {
-    "jsonschema": re.compile(r"has been\s+already provided in the definitions"),
-    "xsd": re.compile(r"conflicting definitions in the schema"),
+    "jsonschema": re.compile(r"has been\s+already provided in the definitions|collides\s+with\s+the\s+JSON\s+name"),
+    "xsd": re.compile(r"conflicting definitions in the schema|collides\s+with\s+the\s+XML\s+name"),
 }
 
 
@@ -969,6 +986,35 @@ def check_mm(ctx: Ctx, runner: Runner, mm: Dict[str, Any], stream: str, with_mod
         for t in ("jsonschema", "xsd"):
             impl[t] = gen[t][0]
     rec["impl"] = impl
+    # Direct oracle for METHODS. Their bodies are user snippets, so a collision of two methods never shows as a duplicate
+    # declaration the generator wrote; what can be observed is the second sentence of the property: if the target's own
+    # conversion of method names makes two methods of one class (inherited ones included) equal, the target reports an error.
+    if has_methods:
+        for t in SDK:
+            if impl[t] != "ok":
+                continue
+            try:
+                conv = importlib.import_module(f"aas_core_codegen.{t}.naming").method_name
+            except BaseException as e:  # noqa
+                ctx.note(f"method oracle: {t}.naming.method_name unavailable: {crash_name(e)}")
+                continue
+            for cl in mm["types"]:
+                if cl["kind"] != "class":
+                    continue
+                try:
+                    names = [str(conv(m)) for m in c21_mm.all_methods(mm, cl)]
+                except BaseException:  # noqa  (a raising naming function is the subject of the `conv` stream)
+                    continue
+                dup = _dup_names(names)
+                if dup:
+                    ctx.hit(f"oracle:methods-not-reported:{t}")
+                    record_failure(
+                        ctx, mm,
+                        f"{t}: {len([n for n in names if n == dup[0]])} methods of class {cl['name']!r} (inherited ones included) are all "
+                        f"converted to {dup[0]!r}, but verify_for_types reports no collision",
+                        f"C21:{t}:methods:not-reported",
+                    )
+                    break
     model: Dict[str, str] = {}
     unchecked: Dict[str, str] = {}
     if with_model:
@@ -1152,7 +1198,7 @@ def correspond(ctx: Ctx) -> None:
     ctx.extra_cov["rule"] = (
         "conv: (function, identifier) pairs — all 1–3-part identifiers over 10 part shapes (case/digit/empty) x every "
         "naming function + seeded random near-collisions; non-trivial = identifier has an underscore or an upper-case letter. "
-        "verify: meta-models (corpus + 36 hand-made, one per scope kind + the seed-independent pair matrix: leaf / abstract / "
+        "verify: meta-models (corpus + 49 hand-made, one per scope kind + the seed-independent pair matrix: leaf / abstract / "
         "parent class, enumeration, constrained primitive in every combination x 9 colliding name-pair shapes, also with EQUAL "
         "content; class vs a type called I<Name>; literal pairs; property pairs at every place of a hierarchy + seeded random "
         "with a near-collision planted in a chosen scope kind, 40 % of the planted structures of equal content) x 8 targets; "
